@@ -29,6 +29,7 @@ type replayDriver struct {
 	File        string
 	Label       string // optional: only for obligations containing this text
 	ConfirmText string // optional: output text that also confirms (e.g. a crash inside a goroutine)
+	Race        bool   // run the test under the race detector (a data race is the failing schedule)
 }
 
 func loadDrivers() []*replayDriver {
@@ -55,6 +56,8 @@ func loadDrivers() []*replayDriver {
 				d.Label = strings.TrimSpace(ln[6:])
 			case strings.HasPrefix(ln, "confirm-text:"):
 				d.ConfirmText = strings.TrimSpace(ln[13:])
+			case strings.HasPrefix(ln, "race:"):
+				d.Race = strings.TrimSpace(ln[5:]) == "true"
 			case strings.HasPrefix(ln, "get "):
 				kv := strings.SplitN(ln[4:], "=", 2)
 				if len(kv) == 2 {
@@ -176,7 +179,7 @@ func tryReplay(prog *Program, v violation) (bool, string) {
 			}
 			return "0"
 		})
-		ok, testOut := runOverlayTest(prog.RepoDir, drv.Pkg, body, dir)
+		ok, testOut := runOverlayTest(prog.RepoDir, drv.Pkg, body, dir, drv.Race)
 		rep := "replay driver: " + filepath.Base(drv.File) + " (default instance: the contract does not bind, there is no solver model)\n---- generated test ----\n" + body + "\n---- go test output ----\n" + testOut + "\n"
 		if ok {
 			rep += "RESULT: the violation was reproduced on the real code\n"
@@ -236,7 +239,7 @@ func tryReplay(prog *Program, v violation) (bool, string) {
 		}
 		return "0"
 	})
-	ok, testOut := runOverlayTest(prog.RepoDir, drv.Pkg, body, dir)
+	ok, testOut := runOverlayTest(prog.RepoDir, drv.Pkg, body, dir, drv.Race)
 	if !ok && drv.ConfirmText != "" && strings.Contains(testOut, drv.ConfirmText) {
 		ok = true
 	}
@@ -251,7 +254,7 @@ func tryReplay(prog *Program, v violation) (bool, string) {
 
 // runOverlayTest injects a test file into pkgDir (relative to the repo) with -overlay and runs it.
 // Returns true when the output contains REPLAY-CONFIRMED.
-func runOverlayTest(repoDir, pkgDir, src, tmp string) (bool, string) {
+func runOverlayTest(repoDir, pkgDir, src, tmp string, race bool) (bool, string) {
 	testFile := filepath.Join(tmp, "zz_gbv_replay_test.go")
 	os.WriteFile(testFile, []byte(src), 0o644)
 	ov := map[string]map[string]string{"Replace": {filepath.Join(repoDir, pkgDir, "zz_gbv_replay_test.go"): testFile}}
@@ -260,7 +263,12 @@ func runOverlayTest(repoDir, pkgDir, src, tmp string) (bool, string) {
 	os.WriteFile(ovFile, data, 0o644)
 	ctx, cancel := context.WithTimeout(context.Background(), 180*time.Second)
 	defer cancel()
-	cmd := exec.CommandContext(ctx, "go", "test", "-overlay", ovFile, "-vet=off", "-count=1", "-timeout", "60s", "-run", "TestGbvReplay", "./"+pkgDir)
+	args := []string{"test", "-overlay", ovFile, "-vet=off", "-count=1", "-timeout", "60s", "-run", "TestGbvReplay"}
+	if race {
+		args = append(args, "-race")
+	}
+	args = append(args, "./"+pkgDir)
+	cmd := exec.CommandContext(ctx, "go", args...)
 	cmd.Dir = repoDir
 	cmd.Env = append(os.Environ(), "GOFLAGS=-mod=mod", "GOPROXY=off", "GOSUMDB=off", "GOTOOLCHAIN=local")
 	var out bytes.Buffer
